@@ -22,6 +22,18 @@ pub enum HeaderKind {
     Wdb2Basic,
     Wdb2Ext,
     Wdb2ExtIndex,
+    // ---- thorough tier only
+    /// build == 12880: the last build with the 28-byte header
+    Wdb2BasicAtThreshold,
+    /// build == 12881: the first build with the 48-byte header
+    Wdb2ExtAboveThreshold,
+    /// index arrays of a single entry (min_id == max_id)
+    Wdb2ExtIndexOne,
+    /// index arrays of 256 entries (1536 bytes between header and records)
+    Wdb2ExtIndexMany,
+    /// 48-byte WDB5 header (wowdev.wiki DB2/WDB5) directly followed by the records, which is where the
+    /// crate's eager parser looks for them (`Wdb5Header::SIZE`); no field-structure block is emitted
+    Wdb5,
 }
 impl HeaderKind {
     pub fn name(self) -> &'static str {
@@ -30,6 +42,11 @@ impl HeaderKind {
             HeaderKind::Wdb2Basic => "WDB2 basic header",
             HeaderKind::Wdb2Ext => "WDB2 extended header",
             HeaderKind::Wdb2ExtIndex => "WDB2 extended header with index arrays",
+            HeaderKind::Wdb2BasicAtThreshold => "WDB2 basic header at the build threshold",
+            HeaderKind::Wdb2ExtAboveThreshold => "WDB2 extended header just above the build threshold",
+            HeaderKind::Wdb2ExtIndexOne => "WDB2 extended header with one-entry index arrays",
+            HeaderKind::Wdb2ExtIndexMany => "WDB2 extended header with 256-entry index arrays",
+            HeaderKind::Wdb5 => "WDB5 header",
         }
     }
 }
@@ -41,12 +58,22 @@ pub enum Layout {
     /// one private copy per cell in cell order (duplicates and empties are repeated);
     /// a table without string cells gets a zero-length block
     PerCell,
+    // ---- thorough tier only
+    /// longest strings first; a string that is a byte suffix of a stored string is not stored
+    /// but referenced inside the longer one; the empty string is referenced at the terminator
+    /// of the last stored string (block still starts with the empty string)
+    SuffixShared,
+    /// every distinct string once in reverse lexicographic order, with unreferenced filler
+    /// strings before, between and after them
+    Scattered,
 }
 impl Layout {
     pub fn name(self) -> &'static str {
         match self {
             Layout::Pooled => "pooled-sorted",
             Layout::PerCell => "copy-per-cell",
+            Layout::SuffixShared => "suffix-shared",
+            Layout::Scattered => "scattered-with-filler",
         }
     }
 }
@@ -76,7 +103,7 @@ struct Strings {
 impl Strings {
     fn offset(&mut self, s: &str) -> u32 {
         match self.layout {
-            Layout::Pooled => self.pooled[s],
+            Layout::Pooled | Layout::SuffixShared | Layout::Scattered => self.pooled[s],
             Layout::PerCell => {
                 let o = self.block.len() as u32;
                 self.block.extend_from_slice(s.as_bytes());
@@ -137,6 +164,56 @@ pub fn emit(fields: &[Kind], table: &Table, layout: Layout, hk: HeaderKind) -> E
                 st.block.push(0);
             }
         }
+        Layout::SuffixShared => {
+            st.block.push(0);
+            let mut uniq: Vec<&str> = all.clone();
+            uniq.sort();
+            uniq.dedup();
+            // longest first (ties in lexicographic order): a suffix is always placed after its host
+            uniq.sort_by(|a, b| b.len().cmp(&a.len()).then(a.cmp(b)));
+            let mut stored: Vec<(&str, u32)> = vec![];
+            for s in uniq {
+                if s.is_empty() {
+                    continue;
+                }
+                let host = stored.iter().find(|(t, _)| t.as_bytes().ends_with(s.as_bytes()));
+                match host {
+                    Some((t, o)) => {
+                        st.pooled.insert(s.to_string(), o + (t.len() - s.len()) as u32);
+                    }
+                    None => {
+                        let o = st.block.len() as u32;
+                        st.pooled.insert(s.to_string(), o);
+                        stored.push((s, o));
+                        st.block.extend_from_slice(s.as_bytes());
+                        st.block.push(0);
+                    }
+                }
+            }
+            // "" = the last terminator of the block (offset 0 when nothing else is stored)
+            st.pooled.insert(String::new(), st.block.len() as u32 - 1);
+        }
+        Layout::Scattered => {
+            st.block.push(0);
+            st.pooled.insert(String::new(), 0);
+            let mut uniq: Vec<&str> = all.clone();
+            uniq.sort();
+            uniq.dedup();
+            uniq.reverse();
+            st.block.extend_from_slice("~filler-first\0".as_bytes());
+            for (i, s) in uniq.into_iter().enumerate() {
+                if s.is_empty() {
+                    continue;
+                }
+                st.pooled.insert(s.to_string(), st.block.len() as u32);
+                st.block.extend_from_slice(s.as_bytes());
+                st.block.push(0);
+                if i % 2 == 0 {
+                    st.block.extend_from_slice("~f\u{fc}ller\0".as_bytes());
+                }
+            }
+            st.block.extend_from_slice("~filler-last\0".as_bytes());
+        }
     }
     let mut recs = Vec::with_capacity(record_size * table.len());
     for r in table {
@@ -150,6 +227,7 @@ pub fn emit(fields: &[Kind], table: &Table, layout: Layout, hk: HeaderKind) -> E
     let n = table.len() as u32;
     match hk {
         HeaderKind::Wdbc => out.extend_from_slice(b"WDBC"),
+        HeaderKind::Wdb5 => out.extend_from_slice(b"WDB5"),
         _ => out.extend_from_slice(b"WDB2"),
     }
     put32(&mut out, n);
@@ -158,16 +236,31 @@ pub fn emit(fields: &[Kind], table: &Table, layout: Layout, hk: HeaderKind) -> E
     put32(&mut out, st.block.len() as u32);
     match hk {
         HeaderKind::Wdbc => {}
-        HeaderKind::Wdb2Basic => {
+        HeaderKind::Wdb2Basic | HeaderKind::Wdb2BasicAtThreshold => {
             put32(&mut out, 0x1234_5678); // table hash
-            put32(&mut out, 12_000); // build <= 12880: 28-byte header
+            put32(&mut out, if hk == HeaderKind::Wdb2Basic { 12_000 } else { 12_880 }); // build <= 12880: 28-byte header
             put32(&mut out, 0x4D00_0000); // timestamp
         }
-        HeaderKind::Wdb2Ext | HeaderKind::Wdb2ExtIndex => {
+        HeaderKind::Wdb5 => {
+            put32(&mut out, 0x1234_5678); // table hash
+            put32(&mut out, 0x9ABC_DEF0); // layout hash
+            put32(&mut out, 1); // min id
+            put32(&mut out, 0x7FFF); // max id
+            put32(&mut out, 0xFFFF_FFFF); // locale
+            put32(&mut out, 0); // copy table size
+            out.extend_from_slice(&0u16.to_le_bytes()); // flags
+            out.extend_from_slice(&0u16.to_le_bytes()); // id index
+        }
+        HeaderKind::Wdb2Ext | HeaderKind::Wdb2ExtIndex | HeaderKind::Wdb2ExtAboveThreshold | HeaderKind::Wdb2ExtIndexOne | HeaderKind::Wdb2ExtIndexMany => {
             put32(&mut out, 0x1234_5678);
-            put32(&mut out, 15_595);
+            put32(&mut out, if hk == HeaderKind::Wdb2ExtAboveThreshold { 12_881 } else { 15_595 });
             put32(&mut out, 0x4D00_0000);
-            let (min_id, max_id) = if hk == HeaderKind::Wdb2ExtIndex { (1u32, 3u32) } else { (0, 0) };
+            let (min_id, max_id) = match hk {
+                HeaderKind::Wdb2ExtIndex => (1u32, 3u32),
+                HeaderKind::Wdb2ExtIndexOne => (7, 7),
+                HeaderKind::Wdb2ExtIndexMany => (5, 260),
+                _ => (0, 0),
+            };
             put32(&mut out, min_id);
             put32(&mut out, max_id);
             put32(&mut out, 0xFFFF_FFFF); // locale
